@@ -13,3 +13,138 @@ package scanner
 //@   ensures result.tokenPool != nil && result.positionPool != nil
 //@   modifies nothing
 //@   props C09, C01, C06
+
+// ---------------------------------------------------------------------------------------------
+// Helper contracts the generated Lex machine relies on (DESIGN Appendix E).
+
+//@ pred sorted(s) := forall i, j :: (0 <= i && i < j && j < len(s)) ==> s[i] < s[j]
+//@ pred isline(s, o, l) := 1 <= l && l <= len(s) + 1 && (forall i :: (0 <= i && i < l - 1) ==> s[i] <= o) && (forall i :: (l - 1 <= i && i < len(s)) ==> o < s[i])
+//@ pred lexwf(lex) := lex != nil && lex.pe == len(lex.data) && 0 <= lex.ts && lex.ts <= lex.te && lex.te <= len(lex.data) && 0 <= lex.top && lex.top <= len(lex.stack) && sorted(lex.newLines.data) && lex.tokenPool != nil && lex.positionPool != nil && len(lex.tokenPool.block) >= 1 && poolwf(lex.tokenPool) && len(lex.positionPool.block) >= 1 && poolwf(lex.positionPool)
+
+//@ func (*NewLines).Append
+//@   requires nl != nil && sorted(nl.data)
+//@   ensures sorted(nl.data)
+//@   ensures len(nl.data) == old(len(nl.data)) || (len(nl.data) == old(len(nl.data)) + 1 && nl.data[len(nl.data) - 1] == p)
+//@   ensures forall i :: (0 <= i && i < old(len(nl.data))) ==> nl.data[i] == old(nl.data[i])
+//@   ensures (old(len(nl.data)) == 0 || old(nl.data[len(nl.data) - 1]) < p) ==> len(nl.data) == old(len(nl.data)) + 1
+//@   modifies nl.data, elems(nl.data)
+//@   props C04, C01
+
+//@ func (*NewLines).GetLine
+//@   requires nl != nil && sorted(nl.data)
+//@   ensures isline(nl.data, p, result)
+//@   loop 0 invariant -1 <= i && i < len(nl.data) && line == i + 2 && (forall j :: (i < j && j < len(nl.data)) ==> p < nl.data[j])
+//@   loop 0 decreases i + 1
+//@   modifies nothing
+//@   props C04, C01, C06
+
+//@ func (*Lexer).setTokenPosition
+//@   requires token != nil && lexwf(lex)
+//@   ensures token.Position != nil && !old(lex.positionPool.issued)[token.Position]
+//@   ensures token.Position.StartPos == lex.ts && token.Position.EndPos == lex.te
+//@   ensures isline(lex.newLines.data, lex.ts, token.Position.StartLine) && isline(lex.newLines.data, lex.te - 1, token.Position.EndLine)
+//@   ensures lexwf(lex)
+//@   modifies token.Position, lex.positionPool.block, lex.positionPool.off, lex.positionPool.issued, unissued(lex.positionPool)
+//@   props C04, C01
+
+//@ func (*Lexer).addFreeFloatingToken
+//@   requires t != nil && lexwf(lex) && 0 <= ps && ps <= pe && pe <= len(lex.data)
+//@   ensures len(t.FreeFloating) == old(len(t.FreeFloating)) + 1
+//@   ensures forall i :: (0 <= i && i < old(len(t.FreeFloating))) ==> t.FreeFloating[i] == old(t.FreeFloating[i])
+//@   ensures t.FreeFloating[len(t.FreeFloating) - 1] != nil && !old(lex.tokenPool.issued)[t.FreeFloating[len(t.FreeFloating) - 1]]
+//@   ensures t.FreeFloating[len(t.FreeFloating) - 1].ID == id && t.FreeFloating[len(t.FreeFloating) - 1].Value == lex.data[ps:pe]
+//@   ensures t.FreeFloating[len(t.FreeFloating) - 1].Position != nil && t.FreeFloating[len(t.FreeFloating) - 1].Position.StartPos == lex.ts && t.FreeFloating[len(t.FreeFloating) - 1].Position.EndPos == lex.te
+//@   ensures lexwf(lex)
+//@   modifies t.FreeFloating, elems(t.FreeFloating), lex.tokenPool.block, lex.tokenPool.off, lex.tokenPool.issued, unissued(lex.tokenPool), lex.positionPool.block, lex.positionPool.off, lex.positionPool.issued, unissued(lex.positionPool)
+//@   props C04, C01
+
+//@ func (*Lexer).isNotStringVar
+//@   requires lex != nil && 1 <= lex.p && lex.p < len(lex.data) && (lex.data[lex.p - 1] == '\\' ==> 2 <= lex.p)
+//@   modifies nothing
+//@   props C01
+
+//@ func (*Lexer).isNotStringEnd
+//@   requires lex != nil && 1 <= lex.p && lex.p < len(lex.data) && (lex.data[lex.p - 1] == '\\' ==> 2 <= lex.p)
+//@   modifies nothing
+//@   props C01
+
+//@ func (*Lexer).isHeredocEndBefore73
+//@   requires lex != nil && 1 <= p && p <= len(lex.data)
+//@   modifies nothing
+//@   props C01
+
+//@ func (*Lexer).isHeredocEndSince73
+//@   requires lex != nil && 1 <= p && p <= len(lex.data)
+//@   ensures result ==> (old(p) <= lex.p && lex.p <= len(lex.data))
+//@   ensures !result ==> lex.p == old(lex.p)
+//@   loop 0 invariant old(p) <= p && p < len(lex.data)
+//@   loop 0 decreases len(lex.data) - p
+//@   modifies lex.p
+//@   props C01
+
+//@ func (*Lexer).isHeredocEnd
+//@   requires lex != nil && lex.phpVersion != nil && 1 <= p && p <= len(lex.data)
+//@   ensures !result ==> lex.p == old(lex.p)
+//@   ensures lex.p != old(lex.p) ==> le2(7, 3, lex.phpVersion.Major, lex.phpVersion.Minor)
+//@   modifies lex.p
+//@   props C01, C09
+
+//@ func (*Lexer).isNotHeredocEnd
+//@   requires lex != nil && lex.phpVersion != nil && 1 <= p && p <= len(lex.data)
+//@   ensures result ==> lex.p == old(lex.p)
+//@   modifies lex.p
+//@   props C01
+
+//@ func (*Lexer).growCallStack
+//@   requires lex != nil && 0 <= lex.top && lex.top <= len(lex.stack)
+//@   ensures lex.top < len(lex.stack) && len(lex.stack) >= old(len(lex.stack))
+//@   ensures arr(lex.stack) == old(arr(lex.stack)) || fresh(lex.stack)
+//@   ensures forall i :: (0 <= i && i < old(len(lex.stack))) ==> lex.stack[i] == old(lex.stack[i])
+//@   modifies lex.stack, elems(lex.stack)
+//@   props C01
+
+//@ func (*Lexer).isNotPhpCloseToken
+//@   requires lex != nil && 0 <= lex.p && lex.p < len(lex.data)
+//@   modifies nothing
+//@   props C01
+
+//@ func (*Lexer).isNotNewLine
+//@   requires lex != nil && 1 <= lex.p && lex.p < len(lex.data)
+//@   modifies nothing
+//@   props C01
+
+//@ func (*Lexer).call
+//@   requires lex != nil && 0 <= lex.top && lex.top <= len(lex.stack)
+//@   ensures lex.top == old(lex.top) + 1 && lex.top <= len(lex.stack) && lex.stack[old(lex.top)] == state
+//@   ensures lex.p == old(lex.p) + 1 && lex.cs == fnext
+//@   ensures forall i :: (0 <= i && i < old(lex.top)) ==> lex.stack[i] == old(lex.stack[i])
+//@   modifies lex.stack, elems(lex.stack), lex.top, lex.p, lex.cs
+//@   props C01
+
+//@ func (*Lexer).ret
+//@   requires lex != nil && n >= 1 && 0 <= lex.top && lex.top <= len(lex.stack)
+//@   ensures 0 <= lex.top && lex.top <= old(lex.top) && (old(lex.top) >= n ==> lex.top == old(lex.top) - n)
+//@   ensures lex.p == old(lex.p) + 1
+//@   modifies lex.top, lex.cs, lex.p
+//@   props C01
+
+//@ func (*Lexer).ungetCnt
+//@   requires lex != nil
+//@   ensures lex.p == old(lex.p) - n && lex.te == old(lex.te) - n
+//@   modifies lex.p, lex.te
+//@   props C01, C04
+
+//@ func (*Lexer).ungetStr
+//@   requires lex != nil && 0 <= lex.ts && lex.ts <= lex.te && lex.te <= len(lex.data)
+//@   ensures (lex.p == old(lex.p) && lex.te == old(lex.te)) || (lex.p == old(lex.p) - len(s) && lex.te == old(lex.te) - len(s) && lex.te >= lex.ts)
+//@   modifies lex.p, lex.te
+//@   props C01, C04
+
+//@ func (*Lexer).error
+//@   requires lex != nil && sorted(lex.newLines.data) && len(msg) > 0
+//@   ensures lex.errHandlerFunc == nil ==> cbcount() == old(cbcount())
+//@   ensures lex.errHandlerFunc != nil ==> (cbcount() == old(cbcount()) + 1 && fresh(cbarg()) && cberr(cbarg(), msg, lex.ts, lex.te))
+//@   modifies nothing
+//@   props C01, C06
+
+//@ pred cberr(e, msg, ts, te) := e != 0
